@@ -17,7 +17,8 @@ TRUSTED_BASE = [
     "hand-written models Ser.v and De.v/Reader.v/Varint.v tied by the correspondence run (bytes, events, borrowed offsets, consumed length)",
     "translators/gen_union.py (union lookup table regenerated from the source)",
     "extraction (ExtrOcamlBasic) + ocaml/driver.ml; Rust harness: sval realised as a Serialize value, dtarget as a recording DeserializeSeed; harness/src/rtypes.rs: a family of ordinary Rust types (derive Serialize/Deserialize) round-tripped natively",
-    "harness/src/rt_fixed.rs (`rt`): fixed Rust types incl. an enum with a symbol called Null under Option / Vec / map, optional fields skipped by the Serialize impl (skip_serializing_if) at every position, a union of same-short-name types; each value also written through short-writing sinks and exact / too-small slices (std's write_all contract)",
+    "lib/targets.py variant_shapes: rewrites the specification's typed target (newtype variants) into tuple variants over array branches / struct variants over record branches; the expected events are unchanged (spec/Denote dval_typed) when the model De.v accepts (arity fits), Err when the model rejects",
+    "harness/src/rt_fixed.rs (`rt`): fixed Rust types incl. enums as unions with tuple / struct / newtype / unit variants followed by further fields and elements (Geo, Tup3, Track), an enum with a symbol called Null under Option / Vec / map, optional fields skipped by the Serialize impl (skip_serializing_if) at every position, a union of same-short-name types; each value also written through short-writing sinks and exact / too-small slices (std's write_all contract)",
 ]
 ASSUMPTIONS = [
     "schema_wf (spec/Wf.v): keys in range, union branches are not unions and pairwise distinct in the name the deserializer reports, distinct field names / symbols. This excludes unions with two duration branches, which the specification allows: known finding KF1 (the frozen schema keeps no name for a duration)",
@@ -63,6 +64,16 @@ def run(ctx):
             v = G.ValueGen(rng, nodes, layouts=False).gen(0)
             if v is not None:
                 pairs.append((nodes, v))
+    # unions with container branches (array / record / map) followed by further fields / elements: the enum that holds
+    # them takes tuple / struct variants below
+    for _ in range(160 if quick else 5000):
+        nodes, alen = D.variant_shape_case(rng)
+        for _ in range(2):
+            vg = G.ValueGen(rng, nodes, layouts=False)
+            vg.array_len = alen
+            v = vg.gen(0)
+            if v is not None:
+                pairs.append((nodes, v))
     # records most of whose fields are omittable and hold null (for the omission subsets below)
     n_rec = 70 if quick else 2500
     rec_from = len(pairs)
@@ -98,6 +109,8 @@ def run(ctx):
     from collections import Counter
     dist = Counter()
     de_lines, de_meta = [], []
+    import targets as T
+    vstats, variant_want = {}, {}
     for s, line, ri, rm in zip(sp, ser_lines, si, sm):
         distinct.add(line)
         if not C.same_outcome(ri, rm) or (ri.startswith("(ok") and ri != rm):
@@ -117,6 +130,15 @@ def run(ctx):
             for mode in modes:
                 de_lines.append("de %s %s %s %s" % (s["schema"], target, enc, mode))
                 de_meta.append((tg + "/" + mode.split(" ")[0].strip("("), "(ok %s 0)" % exp, enc, mode == "slice"))
+        # the same Rust enum-as-union with the other variant shapes serde offers: a TUPLE variant over an array branch (arity =
+        # the number of items), a STRUCT variant over a record branch. Same events as the newtype shape; the model says
+        # whether every tuple's arity fits its data (then the specification's expectation applies), else Err is due
+        vt = C.show_sx(T.variant_shapes(C.parse_sx(s["ttarget"])[0], C.parse_sx(s["dtyped"])[0], rng, vstats))
+        if vt != s["ttarget"]:
+            for mode in modes:
+                de_lines.append("de %s %s %s %s" % (s["schema"], vt, enc, mode))
+                de_meta.append(("typed-variants/" + mode.split(" ")[0].strip("("), None, enc, mode == "slice"))
+                variant_want[de_lines[-1]] = "(ok %s 0)" % s["dtyped"]
     for (s, line, expect), ri, rm in zip(alt, ai, am):
         distinct.add(line)
         if not C.same_outcome(ri, rm) or (ri.startswith("(ok") and ri != rm):
@@ -137,6 +159,23 @@ def run(ctx):
         dist[kind] += 1
         if not C.same_outcome(ri, rm) or (ri.startswith("(ok") and ri != rm):
             diffs.append(codec.diff_entry(line, ri, rm))
+        if want is None:
+            # variant shapes: the model decides between "fits" and "does not fit"
+            if rm.startswith("(ok"):
+                want = variant_want[line]
+                dist["typed-variants-fit"] += 1
+                if G.erase_borrow_text(rm) != want:
+                    diffs.append({"impl_case": line, "model_case": line, "impl": ri[:400], "model": rm[:400],
+                                  "what": "model vs specification (dval_typed) under tuple / struct variants"})
+                    continue
+            elif rm.startswith("(err"):
+                dist["typed-variants-misfit"] += 1
+                if not ri.startswith("(err"):
+                    violations.append({"impl_case": line, "what": "a tuple variant whose arity does not fit the array it is read from "
+                                       "(model: Err) was accepted", "impl": ri[:400], "model": rm[:200]})
+                continue
+            else:
+                continue
         if G.erase_borrow_text(ri) != want:
             violations.append({"impl_case": line, "what": "round trip (%s): decoded value differs from the value that was serialized" % kind,
                                "impl": ri[:400], "expected": want[:400]})
@@ -166,5 +205,8 @@ def run(ctx):
                     "to_datum must succeed; the bytes are decoded from a slice and from chunked readers under the dynamic target and the typed "
                     "target; events must equal the specification's expectation (bit-exact floats, byte-exact strings, branch names, symbols); "
                     "borrowed events must point into the input slice; model vs crate on every call; plus native round trips of a family of "
-                    "ordinary Rust types (structs, enums as unions, Option, maps, Vec, tuples, newtype structs, borrowed &str/&[u8])",
-            "samples": samples, "violations": violations, "model_diffs": diffs, "distribution": dict(dist)}
+                    "ordinary Rust types (structs, enums as unions, Option, maps, Vec, tuples, newtype structs, borrowed &str/&[u8]); enums as "
+                    "unions with TUPLE variants over array branches and STRUCT variants over record branches (typed target rewritten "
+                    "from the specification's, arity = item count; directed unions of container branches followed by fields / elements; "
+                    "the model decides fit / misfit, the specification's events are expected on a fit; natively: Geo / Tup3 / Track)",
+            "samples": samples, "violations": violations, "model_diffs": diffs, "distribution": dict(dist, **{"variants:" + k: v for k, v in vstats.items()})}
